@@ -80,6 +80,9 @@ func uniform(base *Case, fam string, any bool, name string, regAll bool) uconfig
 type c02Case struct {
 	Base    *Case     `json:"base"`
 	Configs []uconfig `json:"configs"`
+	// Defect: the request carries one injected defect (C10's catalogue): there is no reference
+	// answer then, the configurations are compared with each other
+	Defect string `json:"defect,omitempty"`
 }
 
 func genCaseC02(t *rapid.T) *c02Case {
@@ -92,6 +95,13 @@ func genCaseC02(t *rapid.T) *c02Case {
 	base.Op = d.Ops[0].Name
 	base.LateRegister = rapid.IntRange(0, 4).Draw(t, "lateRegister") == 0
 	cc := &c02Case{Base: base}
+	if rapid.IntRange(0, 5).Draw(t, "defective") == 0 {
+		kind := rapid.SampledFrom([]string{"omitted-required-arg", "undeclared-arg", "unknown-field"}).Draw(t, "defectKind")
+		if _, ok := inject(t, base, kind); ok {
+			cc.Defect = kind
+			base.Doc.Number()
+		}
+	}
 	cc.Configs = append(cc.Configs,
 		uniform(base, "R", false, "uniform-Resolver", false),
 		uniform(base, "A", true, "uniform-root-resolver", false),
@@ -146,6 +156,33 @@ func checkUniverse(c *Case, prop string) ([]hx.Discrepancy, *hx.Expect, map[stri
 	universeSlotOf = func(tn, f string) string { return slotFor(cc, tn, f) }
 	ds, exp, res, _ := checkFullWith(c, prop, UniverseCompute)
 	return ds, exp, res
+}
+
+// compareConfigs resolves a (defective) request under every configuration and compares data and
+// error paths with those of the first one.
+func compareConfigs(cc *c02Case) string {
+	var first, firstName string
+	for _, cf := range cc.Configs {
+		c := applyConfig(cc.Base, cf)
+		universeSlotOf = func(tn, f string) string { return slotFor(c, tn, f) }
+		w, err := NewWorld(c)
+		if err != nil {
+			return "setup: " + err.Error()
+		}
+		res, text, pan := w.Resolve()
+		if pan != nil {
+			return fmt.Sprintf("%s: ResolveString panicked: %v\nrequest: %s", cf.Name, pan, text)
+		}
+		got := hx.Show(hx.Norm(res["data"])) + " errors at " + strings.Join(errPathsOf(res), ", ")
+		if first == "" {
+			first, firstName = got, cf.Name
+			continue
+		}
+		if got != first {
+			return fmt.Sprintf("the request with the defect %q is answered differently by two configurations:\n  %s: %s\n  %s: %s\nrequest: %s", cc.Defect, firstName, first, cf.Name, got, text)
+		}
+	}
+	return ""
 }
 
 func TestC02(t *testing.T) {
@@ -234,6 +271,14 @@ func TestC02(t *testing.T) {
 		}
 	}
 	if f := hx.Replaying(); f != "" {
+		var cc c02Case
+		if err := hx.LoadCase(f, &cc); err == nil && cc.Base != nil {
+			// a defective request: the configurations compared with each other
+			if d := compareConfigs(&cc); d != "" {
+				t.Fatalf("REPLAY-FAIL C02 violated: %s", d)
+			}
+			return
+		}
 		var c Case
 		if err := hx.LoadCase(f, &c); err != nil {
 			t.Fatalf("load %s: %v", f, err)
@@ -243,6 +288,13 @@ func TestC02(t *testing.T) {
 	}
 	rapid.Check(t, func(rt *rapid.T) {
 		cc := genCaseC02(rt)
+		if cc.Defect != "" {
+			if d := compareConfigs(cc); d != "" {
+				rt.Fatalf("C02 violated: %s", run.ReportFailure(cc, []hx.Discrepancy{{Kind: "strategies-differ", Detail: d}}))
+			}
+			run.Case(hx.Hash(cc), true, "defective-request-compared-across-strategies", "defect="+cc.Defect)
+			return
+		}
 		for _, cf := range cc.Configs {
 			one(rt.Fatalf, applyConfig(cc.Base, cf))
 		}
